@@ -168,6 +168,35 @@ type U3er interface{ u3() int }
 
 func Hidden() interface{} { return hidden{1} }
 
+// Sealed has an unexported method: only types of this package implement it, also when
+// another package embeds Sealed in its own interfaces.
+type Sealed interface {
+	Name() string
+	seal() int
+}
+
+type V struct{ N int }
+
+func (V) Name() string { return "other.V" }
+func (V) seal() int    { return 1 }
+
+type PV struct{ N int }
+
+func (*PV) Name() string { return "other.PV" }
+func (*PV) seal() int    { return 2 }
+
+func IsSealed(v interface{}) bool { _, ok := v.(Sealed); return ok }
+
+func IsSealedLit(v interface{}) bool {
+	_, ok := v.(interface {
+		Name() string
+		seal() int
+	})
+	return ok
+}
+
+func SealOf(s Sealed) int { return s.seal() }
+
 func IsU3er(v interface{}) bool { _, ok := v.(U3er); return ok }
 
 func AnonStruct() interface{}   { return struct {
@@ -265,6 +294,56 @@ func hasM1(v interface{}) string {
 type embedsA struct{ A }
 type fieldA struct{ A A }
 
+// interfaces of this package that inherit another package's unexported method
+type wideSealed interface {
+	other.Sealed
+	Extra() int
+}
+
+type sameSealed interface{ other.Sealed }
+
+type wrapV struct {
+	other.V
+	k int
+}
+
+func (wrapV) Extra() int { return 9 }
+
+type wrapPV struct{ *other.PV }
+
+// fake has its own unexported method called seal: that is a different method
+type fake struct{}
+
+func (fake) Name() string { return "fake" }
+func (fake) seal() int    { return 99 }
+func (fake) Extra() int   { return 98 }
+
+func sealedProbe(tag string, v interface{}) string {
+	_, a := v.(other.Sealed)
+	_, b := v.(sameSealed)
+	_, c := v.(wideSealed)
+	_, d := v.(interface{ other.Sealed })
+	_, e := v.(interface {
+		Name() string
+		seal() int
+	})
+	r := tag + ":" + btoa(a) + btoa(b) + btoa(c) + btoa(d) + btoa(e) + btoa(other.IsSealed(v)) + btoa(other.IsSealedLit(v))
+	if s, ok := v.(sameSealed); ok {
+		r += "=" + itoa(other.SealOf(s)) + s.Name()
+	}
+	switch v.(type) {
+	case wideSealed:
+		r += "/wide"
+	case other.Sealed:
+		r += "/sealed"
+	case interface{ seal() int }:
+		r += "/local-seal"
+	default:
+		r += "/none"
+	}
+	return r
+}
+
 func fixed() {
 	l1, is1 := mkLocal1()
 	l2, is2 := mkLocal2()
@@ -333,6 +412,10 @@ func fixed() {
 	_, ok18 := h.(interface{ u3() int })
 	_, ok19 := h.(interface{ M0() int })
 	out("unexported method across packages: " + btoa(ok18) + btoa(ok19) + btoa(other.IsU3er(h)) + btoa(other.IsU3er(localU3{})))
+	out("sealed interfaces: " + sealedProbe("V", other.V{1}) + " " + sealedProbe("*V", &other.V{1}) + " " + sealedProbe("PV", other.PV{1}) + " " + sealedProbe("*PV", &other.PV{1}) + " " + sealedProbe("wrapV", wrapV{}) + " " + sealedProbe("wrapPV", wrapPV{&other.PV{}}) + " " + sealedProbe("fake", fake{}) + " " + sealedProbe("nil", nil))
+	var sv1 interface{} = sameSealed(other.V{1})
+	var sv2 interface{} = other.Sealed(other.V{1})
+	out("sealed values: " + btoa(sv1 == sv2) + btoa(interface{}(wrapV{}) == interface{}(wrapV{})))
 }
 `
 
